@@ -724,6 +724,17 @@ func (c *Ctx) checkBridgeLookup() {
 		return
 	}
 	c.analysedFn(p.FnName(fn))
+	// every line of the bridge list is decoded into a record of its own
+	{
+		ruleF := "O-6c one record per bridge-list line"
+		sites, stale := staleDecodeDests(p.FnsIn("broker"))
+		for _, ci := range stale {
+			c.viol(ruleF, p.FnName(ci.Parent())+" decodes each line into a fresh record", p.instrPos(ci), "a JSON record is decoded inside a loop into a variable that lives across iterations: fields absent from a line keep the values of the previous line, so a bridge is registered with another bridge's address")
+		}
+		if len(stale) == 0 {
+			c.okTrivial(ruleF, "broker JSON decodes inside loops use a per-iteration record", "-", fmt.Sprintf("%d decode site(s) inside loops", len(sites)))
+		}
+	}
 	var lk *ssa.Lookup
 	allInstrs(fn, func(in ssa.Instruction) {
 		if l, ok := in.(*ssa.Lookup); ok && l.CommaOk && l.Index == ssa.Value(fn.Params[1]) {
@@ -742,12 +753,15 @@ func (c *Ctx) checkBridgeLookup() {
 	})
 	n := 0
 	for _, r := range returnsOf(fn) {
-		if !mayBeNil(retVal(r, 1)) {
+		if !retMayBeNil(r, 1) {
 			continue
 		}
 		n++
 		path := reachableWithout(fn, r, found)
-		okVal := flows(retVal(r, 0), func(v ssa.Value) bool { e, ok := v.(*ssa.Extract); return ok && e.Tuple == ssa.Value(lk) && e.Index == 0 })
+		okVal := flows(retVal(r, 0), func(v ssa.Value) bool {
+			e, ok := v.(*ssa.Extract)
+			return ok && e.Tuple == ssa.Value(lk) && e.Index == 0
+		})
 		c.check(len(found) > 0 && path == nil && okVal, rule, "GetBridgeInfo returns success only with the entry found for its parameter", p.instrPos(r), "",
 			"a nil-error return does not depend on the fingerprint having been found (or returns another entry): a client naming an unlisted bridge is matched", p.pathString(path)...)
 	}
